@@ -20,7 +20,7 @@ let parse_obj (idx : int) (w : string) : Objects.obj =
     Objects.OChan (SyncOps2.set_senders ch (nat_of_int 3))
   | 'e' -> Objects.OCell ([n_of_int 1; n_of_int 1; n_of_int 1; n_of_int 1], [])
   | 'b' -> Objects.OBarrier (nat_of_int (int_of_string (String.sub w 1 (String.length w - 1))), Datatypes.O, [], [], [])
-  | 'o' -> Objects.OOnce (Objects.OnNone, false, nat_of_int (idx + 1))
+  | 'o' | 'O' -> Objects.OOnce (Objects.OnNone, false, nat_of_int (idx + 1))
   | 'z' -> Objects.OScope (Datatypes.O, Datatypes.O, false)
   | 'k' ->
     (match String.split_on_char ':' (String.sub w 1 (String.length w - 1)) with
@@ -162,6 +162,14 @@ let run (ws : string list) : string =
     let ((w, _), out) = Prog.run_prog fuel (parse_ms ms) objs (parse_bodies bodies) (parse_script script) (n_of_string rseed) in
     let evs = Stdlib.List.rev_map show_event w.Exec.w_trace in
     String.concat " " (evs @ ["T=" ^ show_outcome out; "S=" ^ show_sched w.Exec.w_e.Exec.recorded])
+  | ["progreplay"; ms; steps; vals; objs; bodies] ->
+    (* steps: t<id> | r, comma separated; vals: the drawn values, comma separated *)
+    let objs = Stdlib.List.mapi parse_obj (split_on ',' objs) in
+    let steps = Stdlib.List.map (fun w -> if w = "r" then Exec.StRandom else Exec.StTask (nat_of_int (int_of_string (String.sub w 1 (String.length w - 1))))) (split_on ',' steps) in
+    let vals = Stdlib.List.map n_of_string (split_on ',' vals) in
+    let ((w, rs), out) = ProgRun.run_prog_replay fuel (parse_ms ms) objs (parse_bodies bodies) steps vals in
+    let evs = Stdlib.List.rev_map show_event w.Exec.w_trace in
+    String.concat " " (evs @ ["T=" ^ show_outcome out; "S=" ^ show_sched w.Exec.w_e.Exec.recorded; "RP=" ^ (if rs.Replay.rp_failed then "failed" else "ok")])
   | ["timelimit"; budget; bits; objs; bodies] ->
     (* bits: one character per clock reading, 1 = the limit was found expired *)
     let expired = Stdlib.List.init (String.length bits) (fun i -> bits.[i] = '1') in
